@@ -1,5 +1,111 @@
-/- Engine `midi` (C20): not built yet. -/
+/-
+  Engine `midi` (C20).  Op line (see harness/midi.cpp for the full description):
+    P:<t>:<min8>:<max8>[,...]  <op> ...      ops: m<k>c m<k>f u<k>c u<k>f x r n c:<par>:<val>[:<chan>:<nrpn>]
+  Output: one token per `c` op (`-` | p<k>:i:<dec> | p<k>:f:<8 hex>), `.` when there is none;
+  `crash` when the model says the implementation indexes outside a vector.
+  A line starting with the word `T` instead prints the trigger predicates of the rest of
+  the line:  `K1=<0|1> K2=<0|1>` (used by tools/props/c20.py to attribute known findings).
+-/
+import RtoscModel.Midi
 import Driver.Common
 namespace Driver.MidiEngine
-def engine : Driver.Engine := Driver.stateless (fun _ => "unimplemented")
+open Rtosc Rtosc.Midi
+
+def parseNat? (s : String) (max : Nat) : Option Nat :=
+  if s.isEmpty || s.length > 9 || !s.all Char.isDigit then none
+  else match s.toNat? with
+    | some n => if n ≤ max then some n else none
+    | none => none
+
+def parseInt? (s : String) (max : Nat) : Option Int :=
+  if s.startsWith "-" then
+    if s.length < 2 || s.length > 9 then none else (parseNat? (s.drop 1).toString max).map (fun n => -(n : Int))
+  else (parseNat? s max).map (fun n => (n : Int))
+
+def parsePort (s : String) : Option PortSpec :=
+  match s.splitOn ":" with
+  | [t, a, b] =>
+    if t ≠ "i" ∧ t ≠ "f" then none else
+    match parseInt? a 8388607, parseInt? b 8388607 with
+    | some mn, some mx => some ⟨t = "i", mn, mx⟩
+    | _, _ => none
+  | _ => none
+
+def parsePorts (w : String) : Option (List PortSpec) :=
+  if !w.startsWith "P:" || w.length < 3 then none else
+  let specs := (w.drop 2).toString.splitOn ","
+  if specs.length > 10 then none else specs.mapM parsePort
+
+def digitOf (c : Char) : Option Nat := if c.isDigit then some (c.toNat - 48) else none
+
+def parseOp (nports : Nat) (t : String) : Option Op :=
+  if t = "x" then some .clear
+  else if t = "r" then some .deliverRT
+  else if t = "n" then some .deliverNRT
+  else match t.toList with
+    | ['m', k, c] =>
+      match digitOf k with
+      | some a => if a < nports ∧ (c = 'c' ∨ c = 'f') then some (.map a (c = 'c')) else none
+      | none => none
+    | ['u', k, c] =>
+      match digitOf k with
+      | some a => if a < nports ∧ (c = 'c' ∨ c = 'f') then some (.unmap a (c = 'c')) else none
+      | none => none
+    | 'c' :: ':' :: _ =>
+      match ((t.drop 2).toString.splitOn ":") with
+      | [a, b] =>
+        match parseNat? a 16383, parseNat? b 127 with
+        | some par, some val => some (.cc (ccId par 1 false) val)
+        | _, _ => none
+      | [a, b, c, d] =>
+        match parseNat? a 16383, parseNat? b 127, parseNat? c 127, parseNat? d 1 with
+        | some par, some val, some ch, some nr => some (.cc (ccId par ch (nr = 1)) val)
+        | _, _, _, _ => none
+      | _ => none
+    | _ => none
+
+def hex8 (n : Nat) : String :=
+  String.ofList ((List.range 8).reverse.map fun i => hexDigit ((n >>> (4 * i)) % 16))
+
+def showMsg (m : Msg) : String :=
+  match m.val with
+  | .int v => s!"p{m.addr}:i:{v}"
+  | .flt b => s!"p{m.addr}:f:{hex8 b}"
+
+def isCC : Op → Bool
+  | .cc _ _ => true
+  | _ => false
+
+def parseLine (ws : List String) : Option (List PortSpec × List Op) :=
+  match ws with
+  | [] => none
+  | p :: rest =>
+    match parsePorts p with
+    | none => none
+    | some ports =>
+      match rest.mapM (parseOp ports.length) with
+      | none => none
+      | some ops => some (ports, ops)
+
+def step (line : String) : String :=
+  match words line with
+  | "T" :: rest =>
+    match parseLine rest with
+    | none => "bad-op"
+    | some (ports, ops) =>
+      s!"K1={if triggerK1 ports ops then 1 else 0} K2={if triggerK2 ports ops then 1 else 0}"
+  | ws =>
+    match parseLine ws with
+    | none => "bad-op"
+    | some (ports, ops) =>
+      match Rtosc.Midi.run ports Sys.init ops with
+      | none => "crash"
+      | some (_, outs) =>
+        let toks := (ops.zip outs).filterMap fun (op, out) =>
+          if isCC op then
+            some (if out.isEmpty then "-" else "+".intercalate (out.map showMsg))
+          else none
+        if toks.isEmpty then "." else " ".intercalate toks
+
+def engine : Driver.Engine := Driver.stateless step
 end Driver.MidiEngine
